@@ -104,14 +104,16 @@ pub struct BlockWorld {
     uniq: usize,
     t0: u64,
     restarts: usize,
+    /// 16: all connections in one shard of the server's connection table
+    stride: u64,
     before_del: Vec<String>,
     last_lists: BTreeMap<String, Vec<String>>,
 }
 
 impl BlockWorld {
-    fn new(full: bool, nb: usize) -> BlockWorld {
+    fn new(full: bool, nb: usize, stride: u64) -> BlockWorld {
         vtime::enable();
-        BlockWorld { full, nb, acts: acts(full, nb), srv: None, conns: (0..nb + 1).map(|_| None).collect(), aux: None, blocked: (0..nb).map(|_| None).collect(), pushed: vec![], delivered: vec![], popped_by_producer: vec![], step: 0, uniq: 0, t0: 0, restarts: 0, before_del: vec![], last_lists: BTreeMap::new() }
+        BlockWorld { full, nb, acts: acts(full, nb), srv: None, conns: (0..nb + 1).map(|_| None).collect(), aux: None, blocked: (0..nb).map(|_| None).collect(), pushed: vec![], delivered: vec![], popped_by_producer: vec![], step: 0, uniq: 0, t0: 0, restarts: 0, stride, before_del: vec![], last_lists: BTreeMap::new() }
     }
 
     fn settle(&mut self) -> Result<Vec<Vec<R>>, String> {
@@ -345,7 +347,7 @@ impl World for BlockWorld {
         if self.srv.as_ref().map(|s| s.is_dead()).unwrap_or(true) {
             self.srv = None;
             self.aux = None;
-            self.srv = Some(Srv::start(&SrvOpts::default()));
+            self.srv = Some(Srv::start(&SrvOpts { conn_stride: self.stride, ..SrvOpts::default() }));
             self.restarts += 1;
         }
         for c in self.conns.iter_mut() {
@@ -362,7 +364,7 @@ impl World for BlockWorld {
             if !waiters.is_empty() || wakeq != 0 {
                 self.srv = None;
                 self.aux = None;
-                self.srv = Some(Srv::start(&SrvOpts::default()));
+                self.srv = Some(Srv::start(&SrvOpts { conn_stride: self.stride, ..SrvOpts::default() }));
                 self.restarts += 1;
             }
         }
@@ -630,9 +632,10 @@ impl BlockWorld {
 
 fn make_world(spec: &str) -> Option<Box<dyn World>> {
     match spec {
-        "c13-core" => Some(Box::new(BlockWorld::new(false, 2))),
-        "c13-full" => Some(Box::new(BlockWorld::new(true, 2))),
-        "c13-three" => Some(Box::new(BlockWorld::new(false, 3))),
+        "c13-core" => Some(Box::new(BlockWorld::new(false, 2, 1))),
+        "c13-full" => Some(Box::new(BlockWorld::new(true, 2, 1))),
+        "c13-three" => Some(Box::new(BlockWorld::new(false, 3, 1))),
+        "c13-core-sameshard" => Some(Box::new(BlockWorld::new(false, 2, 16))),
         _ => None,
     }
 }
@@ -643,6 +646,7 @@ fn prop() -> DataProp {
         specs: vec![
             SpecRun { spec: "c13-core", depth_quick: 5, depth_thorough: 9, budget_quick_s: 35.0, budget_thorough_s: 1800.0 },
             SpecRun { spec: "c13-three", depth_quick: 5, depth_thorough: 7, budget_quick_s: 30.0, budget_thorough_s: 1800.0 },
+            SpecRun { spec: "c13-core-sameshard", depth_quick: 4, depth_thorough: 6, budget_quick_s: 20.0, budget_thorough_s: 900.0 },
             SpecRun { spec: "c13-full", depth_quick: 0, depth_thorough: 7, budget_quick_s: 0.0, budget_thorough_s: 1800.0 },
         ],
         make_world,
